@@ -260,6 +260,20 @@ impl Output {
     }
 }
 
+impl Drop for Output {
+    fn drop(&mut self) {
+        // If the old output file was renamed out of the way, then a background task is responsible
+        // for deleting it. Nothing guarantees that this task gets to run before we exit though, in
+        // which case the renamed file would be left behind. So make sure that it's gone. If the
+        // background task already deleted it, or is doing so right now, then this does nothing.
+        if matches!(self.creator, FileCreator::Background { .. })
+            && self.config.file_write_mode == FileWriteMode::UnlinkAndReplace
+        {
+            let _ = std::fs::remove_file(temporary_path_for_old_output(&self.path));
+        }
+    }
+}
+
 /// Returns the file write mode that we should use to write to the specified path.
 fn default_file_write_mode(args: &impl platform::Args, output_kind: OutputKind) -> FileWriteMode {
     if output_kind.is_shared_object() {
